@@ -338,6 +338,26 @@ def compileAssign (env : CEnv) (lhs : CExpr) (op : String) (ce : CE) : Except St
   let eff ← destWrite lhs src.il
   .ok (eff, src)
 
+/-- statements that are a bare value (`siV;`, `i++;`, `f(x);`): they yield no effect of their own -/
+def isBare : CStmt → Bool
+  | .exprstmt _ => true
+  | _ => false
+
+/-- the effect list of `s :: ss`: a bare value statement is not an effect and is not listed -/
+def consEff (s : CStmt) (e : ILEffect) (es : List ILEffect) : List ILEffect :=
+  if isBare s then es else e :: es
+
+/-- what the hybrid lowering model returns for the statement: no effect for a bare value -/
+def effOpt (s : CStmt) (e : ILEffect) : Option ILEffect :=
+  if isBare s then none else some e
+
+theorem consEff_bare {s : CStmt} (h : isBare s = true) (e : ILEffect) (es : List ILEffect) : consEff s e es = es := by
+  simp only [consEff, h, ↓reduceIte]
+
+theorem consEff_eff {s : CStmt} (h : isBare s = false) (e : ILEffect) (es : List ILEffect) :
+    consEff s e es = e :: es := by
+  simp only [consEff, h, Bool.false_eq_true, ↓reduceIte]
+
 mutual
 def compileStmt (env : CEnv) (st : TSt) : CStmt → Except String (ILEffect × TSt)
   | .decl _ _ none => .ok (.empty, st)
@@ -402,7 +422,13 @@ def compileStmt (env : CEnv) (st : TSt) : CStmt → Except String (ILEffect × T
       let ce ← compileExpr env e
       let ta := if ce.ty.width != 32 then initACast env.cfg { signed := false, width := 32, group := 1 } ce else ce
       .ok (.seqn [.setl "jump_flag" .btrue, .setl "jump_target" ta.il], st)
-  | .exprstmt _ => .error "hybrid: use CompileH"
+  | .exprstmt e => do
+      -- a bare value statement `e;` for a pure `e` (`siV;`, `RsV;`): the value is compiled (its immediates are
+      -- registered in order of first occurrence) and dropped; the statement has no effect of its own (`compileStmts`
+      -- does not list the `EMPTY` returned here).  A value with a side effect is rejected by `compileExpr`.
+      let st := addImms st (immsOfExpr e)
+      let _ ← compileExpr env e
+      .ok (.empty, st)
   | .ret _ => .error "hybrid: use CompileH"
   | .vcall _ _ _ _ => .error "hybrid: use CompileH"
   | .skip w =>
@@ -416,9 +442,20 @@ def compileStmts (env : CEnv) (st : TSt) : List CStmt → Except String (List IL
       let (e, st) ← compileStmt env st s
       let (es, st) ← compileStmts env st ss
       -- a `Sequence` that is itself a plain list member is kept as one effect; nested blocks are flattened
-      -- by the harness before they reach the model
-      .ok (e :: es, st)
+      -- by the harness before they reach the model; a bare value statement is not an effect and is not listed
+      .ok (consEff s e es, st)
 end
+
+/-- the pure-model effect of a bare value statement is `EMPTY` (and `compileStmts` does not list it) -/
+theorem compileStmt_bare {env : CEnv} {st st' : TSt} {s : CStmt} {e : ILEffect} (hb : isBare s = true)
+    (h : compileStmt env st s = .ok (e, st')) : e = .empty := by
+  cases s with
+  | exprstmt x =>
+    simp only [compileStmt, bind, Except.bind] at h
+    split at h
+    · cases h
+    · simp only [Except.ok.injEq, Prod.mk.injEq] at h; exact h.1.symm
+  | _ => simp [isBare] at hb
 
 -- operands assigned anywhere (pre-pass)
 mutual
